@@ -154,3 +154,159 @@ Proof.
   - intros i r t Hi Hlt. apply (others_none k _ 10 _ mask Hne Hco Cv i r t Hi). apply Nat.lt_neq. exact Hlt.
   - intros i r t Hi Hlt. apply (others_none k _ 10 _ mask Hne Hco Cm i r t Hi). apply not_eq_sym, Nat.lt_neq. exact Hlt.
 Qed.
+
+(* ---------- the common assembly ---------- *)
+Lemma whole_frame k j rj tj AR m m1 mask :
+  In k gen_keys -> nth_error (tagged k mask) j = Some (rj, tj) ->
+  check_others k (shape_of AR) j = true ->
+  conc gen_ci_table k (shape_of AR) m -> conc gen_ci_table k (shape_of AR) m1 ->
+  re_sub rj tj m = m1 ->
+  occursb k (lower m) = true -> others_absent k m = true -> others_absent k m1 = true ->
+  mask_password m mask = m1.
+Proof.
+  intros Hin Hj Hco Cv Cm Hd Hocc Hav Ham. destruct (gen_key_ok k Hin) as [Hne Hk].
+  apply (mask_password_one_key k _ _ mask Hin Hocc Hav Ham).
+  apply (sub_all_one (tagged k mask) j _ _ rj tj Hj Hd).
+  - intros i r t Hi Hlt. apply (others_none k _ j _ mask Hne Hco Cv i r t Hi). apply Nat.lt_neq. exact Hlt.
+  - intros i r t Hi Hlt. apply (others_none k _ j _ mask Hne Hco Cm i r t Hi). apply not_eq_sym, Nat.lt_neq. exact Hlt.
+Qed.
+
+Definition nomatch_pre (r : re) (pre S : str) : Prop :=
+  forall a' b' q, pre = a' ++ b' -> b' <> [] -> match_at r (b' ++ S) q = None.
+Definition nomatch_post (r : re) (post : str) : Prop :=
+  forall a' b' q, post = a' ++ b' -> match_at r b' q = None.
+
+Lemma self_nomatch k AR j rj pre S post : In k gen_keys ->
+  check_self k AR j = true -> nth_error (pats k) j = Some rj ->
+  (forall a' b', pre = a' ++ b' -> b' <> [] -> conc gen_ci_table k (ARun ctx_cs true :: AR ++ [ARun ctx_cs false]) (b' ++ S)) ->
+  conc gen_ci_table k [ARun ctx_cs false] post ->
+  nomatch_pre rj pre S /\ nomatch_post rj post.
+Proof.
+  intros Hin Hcs Hrj Cpre Cpost. destruct (gen_key_ok k Hin) as [Hne _].
+  destruct (check_self_spec k _ j _ Hcs Hrj) as [Hs1 Hs2]. split.
+  - intros a' b' q E Hb. apply (am_none gen_ci_table k 200 _ _ _ q Hne Hs1). apply (Cpre a' b' E Hb).
+  - intros a' b' q E. exact (abs_no_match gen_ci_table k Hne 200 _ _ post Hs2 Cpost a' b' q E).
+Qed.
+
+Ltac valid_segs Hl :=
+  repeat constructor; cbn [fst snd]; try assumption; try discriminate;
+  try (eexists; split; [reflexivity|first [assumption|reflexivity]]).
+
+(* ====================================================================== *)
+(* k 'v'  (white space, then a quoted value)             _FORMAT_PATTERNS_2[3] *)
+(* ====================================================================== *)
+Definition shapeR_kq (kcs : list cset) : asub :=
+  [AKey kcs; ARun dig_cs false; ARun py_space true; AOne cs_quotes; ARun cs_quoted false; AOne cs_quotes].
+Lemma checks_kq : forallb (fun k => check_others k (shape_of (shapeR_kq (kcs_of k))) 3 && check_self k (shapeR_kq (kcs_of k)) 3) gen_keys = true.
+Proof. vm_cast_no_check (eq_refl true). Qed.
+
+Definition msg_kq (pre K d w1 : str) (q1 : N) (x : str) (q2 : N) (post : str) : str := pre ++ K ++ d ++ w1 ++ q1 :: x ++ q2 :: post.
+
+Lemma whole_kq_step k K d w1 q1 q2 v mask pre post :
+  In k gen_keys -> casing_of k K -> forallb ascii_digit d = true ->
+  forallb is_space w1 = true -> (1 <= length w1)%nat -> is_quote q1 = true -> is_quote q2 = true ->
+  forallb quoted_char v = true -> forallb quoted_char mask = true ->
+  forallb ctx_char pre = true -> forallb ctx_char post = true ->
+  only_at gen_ci_table k (msg_kq pre K d w1 q1 v q2 post) [length pre] = true ->
+  only_at gen_ci_table k (msg_kq pre K d w1 q1 mask q2 post) [length pre] = true ->
+  others_absent k (msg_kq pre K d w1 q1 v q2 post) = true ->
+  others_absent k (msg_kq pre K d w1 q1 mask q2 post) = true ->
+  mask_password (msg_kq pre K d w1 q1 v q2 post) mask = msg_kq pre K d w1 q1 mask q2 post.
+Proof.
+  intros Hin Hcase Hd Hw1 Hl1 Hq1 Hq2 Hv Hmk Hpre Hpost Hov Hom Hav Ham.
+  destruct (gen_key_ok k Hin) as [Hne Hk].
+  pose proof (casing_ok_of k K Hk Hcase) as HK. pose proof (digits_in d Hd) as Hd'.
+  pose proof (spaces_in _ Hw1) as Hw1'. pose proof (quote_in _ Hq1) as Hq1'. pose proof (quote_in _ Hq2) as Hq2'.
+  pose proof (all_in_impl _ _ _ quoted_in Hv) as Hv'. pose proof (all_in_impl _ _ _ quoted_in Hmk) as Hmk'.
+  pose proof (ctx_all _ Hpre) as Hpre'. pose proof (ctx_all _ Hpost) as Hpost'.
+  pose proof checks_kq as Hch. rewrite forallb_forall in Hch. specialize (Hch k Hin).
+  apply andb_true_iff in Hch. destruct Hch as [Hco Hcs].
+  assert (Parts : forall x, all_in cs_quoted x = true ->
+            only_at gen_ci_table k (msg_kq pre K d w1 q1 x q2 post) [length pre] = true ->
+            let S := K ++ d ++ w1 ++ q1 :: x ++ q2 :: post in
+            conc gen_ci_table k (shape_of (shapeR_kq (kcs_of k))) (pre ++ S) /\
+            (forall a' b', pre = a' ++ b' -> b' <> [] -> conc gen_ci_table k (ARun ctx_cs true :: shapeR_kq (kcs_of k) ++ [ARun ctx_cs false]) (b' ++ S)) /\
+            conc gen_ci_table k [ARun ctx_cs false] post).
+  { intros x Hx' Hox.
+    pose proof (conc_parts gen_ci_table k Hne ctx_cs false pre
+                  [(AKey (kcs_of k), K); (ARun dig_cs false, d); (ARun py_space true, w1); (AOne cs_quotes, [q1]);
+                   (ARun cs_quoted false, x); (AOne cs_quotes, [q2])] ctx_cs false post (msg_kq pre K d w1 q1 x q2 post)) as P.
+    cbn zeta in P. apply P; clear P.
+    - reflexivity.
+    - valid_segs Hl1. intros _. destruct w1; [inversion Hl1|discriminate].
+    - intros a b E Hp. pose proof (only_at_spec _ _ _ _ Hox a b E Hp) as Hi. cbn [key_offsets fst snd is_key app Nat.add]. exact Hi. }
+  destruct (Parts v Hv' Hov) as (Cv & Cpre & Cpost). destruct (Parts mask Hmk' Hom) as (Cm & _ & _).
+  assert (Hrj : nth_error (pats k) 3 = Some (gen_tp2_3 k)) by reflexivity.
+  destruct (self_nomatch k _ 3 _ pre _ post Hin Hcs Hrj Cpre Cpost) as [Npre Npost].
+  unfold msg_kq.
+  apply (whole_frame k 3 (gen_tp2_3 k) (t2 mask) (shapeR_kq (kcs_of k)) _ _ mask Hin eq_refl Hco Cv Cm);
+    [|apply (key_occurs k K pre _ Hk Hcase)|exact Hav|exact Ham].
+  replace (pre ++ K ++ d ++ w1 ++ q1 :: mask ++ q2 :: post) with (pre ++ (K ++ d ++ w1 ++ [q1]) ++ mask ++ [q2] ++ post) by norm_app2.
+  eapply (gm_sub_two_ctx gen_ci_table (gen_tp2_3 k) pre _ (K ++ d ++ w1 ++ [q1]) v [q2] post mask);
+    [cbv [gen_tp2_3]; gm_go|norm_app2|norm_app2| |cbn [gget Nat.eqb app]; reflexivity|norm_app2
+    |cbn [gget Nat.eqb app]; reflexivity|norm_app2|norm_app2|exact Npre|exact Npost].
+  destruct K, d, w1; discriminate.
+Qed.
+
+(* ====================================================================== *)
+(* <k>v</k>                                              _FORMAT_PATTERNS_2[5] *)
+(* ====================================================================== *)
+Definition shapeR_xml (kcs : list cset) : asub :=
+  [AOne [(60, 60)]; AKey kcs; ARun dig_cs false; AOne [(62, 62)]; ARun cs_xml false; AOne [(60, 60)]; AOne [(47, 47)];
+   AKey kcs; ARun dig_cs false; AOne [(62, 62)]].
+Lemma checks_xml : forallb (fun k => check_others k (shape_of (shapeR_xml (kcs_of k))) 5 && check_self k (shapeR_xml (kcs_of k)) 5) gen_keys = true.
+Proof. vm_cast_no_check (eq_refl true). Qed.
+
+Definition msg_xml (pre K d x K' d' post : str) : str := pre ++ 60 :: K ++ d ++ 62 :: x ++ 60 :: 47 :: K' ++ d' ++ 62 :: post.
+Definition xml_offsets (pre K d x : str) : list nat :=
+  [(length pre + 1)%nat; (length pre + 1 + length K + length d + 1 + length x + 2)%nat].
+
+Lemma whole_xml_step k K d K' d' v mask pre post :
+  In k gen_keys -> casing_of k K -> forallb ascii_digit d = true -> casing_of k K' -> forallb ascii_digit d' = true ->
+  forallb xml_char v = true -> forallb xml_char mask = true ->
+  forallb ctx_char pre = true -> forallb ctx_char post = true ->
+  only_at gen_ci_table k (msg_xml pre K d v K' d' post) (xml_offsets pre K d v) = true ->
+  only_at gen_ci_table k (msg_xml pre K d mask K' d' post) (xml_offsets pre K d mask) = true ->
+  others_absent k (msg_xml pre K d v K' d' post) = true ->
+  others_absent k (msg_xml pre K d mask K' d' post) = true ->
+  mask_password (msg_xml pre K d v K' d' post) mask = msg_xml pre K d mask K' d' post.
+Proof.
+  intros Hin Hcase Hd Hcase2 Hd2 Hv Hmk Hpre Hpost Hov Hom Hav Ham.
+  destruct (gen_key_ok k Hin) as [Hne Hk].
+  pose proof (casing_ok_of k K Hk Hcase) as HK. pose proof (digits_in d Hd) as Hd'.
+  pose proof (casing_ok_of k K' Hk Hcase2) as HK2. pose proof (digits_in d' Hd2) as Hd2'.
+  pose proof (all_in_impl _ _ _ xml_in Hv) as Hv'. pose proof (all_in_impl _ _ _ xml_in Hmk) as Hmk'.
+  pose proof (ctx_all _ Hpre) as Hpre'. pose proof (ctx_all _ Hpost) as Hpost'.
+  pose proof checks_xml as Hch. rewrite forallb_forall in Hch. specialize (Hch k Hin).
+  apply andb_true_iff in Hch. destruct Hch as [Hco Hcs].
+  assert (Parts : forall x, all_in cs_xml x = true ->
+            only_at gen_ci_table k (msg_xml pre K d x K' d' post) (xml_offsets pre K d x) = true ->
+            let S := 60 :: K ++ d ++ 62 :: x ++ 60 :: 47 :: K' ++ d' ++ 62 :: post in
+            conc gen_ci_table k (shape_of (shapeR_xml (kcs_of k))) (pre ++ S) /\
+            (forall a' b', pre = a' ++ b' -> b' <> [] -> conc gen_ci_table k (ARun ctx_cs true :: shapeR_xml (kcs_of k) ++ [ARun ctx_cs false]) (b' ++ S)) /\
+            conc gen_ci_table k [ARun ctx_cs false] post).
+  { intros x Hx' Hox.
+    pose proof (conc_parts gen_ci_table k Hne ctx_cs false pre
+                  [(AOne [(60, 60)], [60]); (AKey (kcs_of k), K); (ARun dig_cs false, d); (AOne [(62, 62)], [62]); (ARun cs_xml false, x);
+                   (AOne [(60, 60)], [60]); (AOne [(47, 47)], [47]); (AKey (kcs_of k), K'); (ARun dig_cs false, d'); (AOne [(62, 62)], [62])]
+                  ctx_cs false post (msg_xml pre K d x K' d' post)) as P.
+    cbn zeta in P. apply P; clear P.
+    - reflexivity.
+    - valid_segs Hne.
+    - intros a b E Hp. pose proof (only_at_spec _ _ _ _ Hox a b E Hp) as Hi. cbn [key_offsets fst snd is_key app].
+      clear - Hi. unfold xml_offsets in Hi. destruct Hi as [Hi|[Hi|[]]]; [left|right; left]; rewrite <- Hi; cbn [length]; lia. }
+  destruct (Parts v Hv' Hov) as (Cv & Cpre & Cpost). destruct (Parts mask Hmk' Hom) as (Cm & _ & _).
+  assert (Hrj : nth_error (pats k) 5 = Some (gen_tp2_5 k)) by reflexivity.
+  destruct (self_nomatch k _ 5 _ pre _ post Hin Hcs Hrj Cpre Cpost) as [Npre Npost].
+  unfold msg_xml.
+  apply (whole_frame k 5 (gen_tp2_5 k) (t2 mask) (shapeR_xml (kcs_of k)) _ _ mask Hin eq_refl Hco Cv Cm);
+    [| |exact Hav|exact Ham].
+  2:{ replace (pre ++ 60 :: K ++ d ++ 62 :: v ++ 60 :: 47 :: K' ++ d' ++ 62 :: post)
+        with ((pre ++ [60]) ++ K ++ (d ++ 62 :: v ++ 60 :: 47 :: K' ++ d' ++ 62 :: post)) by norm_app2.
+      apply (key_occurs k K _ _ Hk Hcase). }
+  - replace (pre ++ 60 :: K ++ d ++ 62 :: mask ++ 60 :: 47 :: K' ++ d' ++ 62 :: post)
+      with (pre ++ (60 :: K ++ d ++ [62]) ++ mask ++ (60 :: 47 :: K' ++ d' ++ [62]) ++ post) by norm_app2.
+    eapply (gm_sub_two_ctx gen_ci_table (gen_tp2_5 k) pre _ (60 :: K ++ d ++ [62]) v (60 :: 47 :: K' ++ d' ++ [62]) post mask);
+      [cbv [gen_tp2_5]; gm_go|norm_app2|norm_app2|discriminate|cbn [gget Nat.eqb app]; reflexivity|norm_app2
+      |cbn [gget Nat.eqb app]; reflexivity|norm_app2|norm_app2|exact Npre|exact Npost].
+Qed.
